@@ -39,9 +39,9 @@ CRITERIA = {
     'GENEROUS':   dict(flag='-gen', dest='gen', dir='MIN', nextras=1, defaults=(1,), form='sum(x(q), rs(q) == r)', solves='ranks-desc'),
     'GREEDY':     dict(flag='-gre', dest='gre', dir='MAX', nextras=1, defaults=('R',), form='sum(x(q), rs(q) == r)', solves='ranks-asc'),
     'MINCOST':    dict(flag='-mincost', dest='mincost', dir='MIN', nextras=2, defaults=(1, 0),
-                       form='sum(a0*rs(q)*x(q)) + sum(a1*rl(q)*x(q), has_rank_lecturer(q) == 1)', solves='one'),
+                       form='sum(a0*rs(q)*x(q)) + sum(a1*rl(q)*x(q), has_rank_lecturer(q))', solves='one'),
     'MINSQCOST':  dict(flag='-minsqcost', dest='minsqcost', dir='MIN', nextras=2, defaults=(1, 0),
-                       form='sum(a0*rs(q)*rs(q)*x(q)) + sum(a1*rl(q)*rl(q)*x(q), has_rank_lecturer(q) == 1)', solves='one'),
+                       form='sum(a0*rs(q)*rs(q)*x(q)) + sum(a1*rl(q)*rl(q)*x(q), has_rank_lecturer(q))', solves='one'),
     'LOADMAXBAL': dict(flag='-lmb', dest='lmb', dir='MIN', nextras=0, defaults=(), form='max_k d[k]', solves='one'),
     'LOADSUMBAL': dict(flag='-lsb', dest='lsb', dir='MIN', nextras=0, defaults=(), form='sumk(d[k])', solves='one'),
     'MINCOSTLSB': dict(flag='-mincostlsb', dest='mincostlsb', dir='MIN', nextras=2, defaults=(1, 1),
